@@ -48,6 +48,9 @@ func checkC05(c *Ctx, r *Report) {
 	c05ParseIntWidth(c, r, "C05.R6.parse-int-width")
 	c05MnemonicIdent(c, r, "C05.R2.mnemonic-ident")
 	c05DDDGuards(c, r, "C05.R4.ddd-guard")
+	ttlNoWrap(c, r, "C05.R5.ttl-no-wrap")
+	rfc3597Whole(c, r, "C05.R2.rfc3597-whole")
+	endingConsumesLine(c, r, "C05.R3.ending-consumes-line")
 }
 
 // c05R5: numeric limit agreement: the TTL parser accepts exactly the range the 32-bit header field (and its printer) has.
